@@ -6,7 +6,6 @@ import (
 	"go/constant"
 	"go/token"
 	"go/types"
-	"golang.org/x/tools/go/ssa"
 	"math/big"
 	"strconv"
 	"strings"
@@ -26,79 +25,34 @@ func init() {
 // ---------------------------------------------------------------- T-LENUINT
 
 func runLenUint(r *core.Run) {
-	fd, pk := r.Prog.FuncDecl("strconv", "", "LenUint")
-	if fd == nil {
+	lu := r.Prog.SSAFunc("strconv", "", "LenUint")
+	if lu == nil {
 		r.BrokenAnchor("strconv.LenUint")
 		return
 	}
-	if len(fd.Type.Params.List) != 1 || len(fd.Type.Params.List[0].Names) != 1 {
-		r.Unknown("LenUint signature", fd.Pos(), "unexpected parameter list")
-		return
-	}
-	param := pk.TypesInfo.Defs[fd.Type.Params.List[0].Names[0]]
-	var sw *ast.SwitchStmt
-	var final *ast.ReturnStmt
-	for _, st := range fd.Body.List {
-		switch s := st.(type) {
-		case *ast.SwitchStmt:
-			if sw != nil {
-				r.Unknown("LenUint shape", s.Pos(), "more than one switch")
-				return
-			}
-			sw = s
-		case *ast.ReturnStmt:
-			final = s
-		default:
-			r.Unknown("LenUint shape", st.Pos(), "unexpected statement; expected `switch { case i < 10^k: return k ... }; return 20`")
-			return
-		}
-	}
-	if sw == nil || sw.Tag != nil || sw.Init != nil || final == nil {
-		r.Unknown("LenUint shape", fd.Pos(), "expected a tagless switch followed by a return")
-		return
-	}
+	// decade by decade: for every i in [10^(k-1), 10^k - 1] (and [0, 9], and [10^19, 2^64-1]) the function, folded
+	// statically with i as an interval, returns k — whatever its form (comparison ladder, loop over a table of
+	// powers of ten); a comparison that splits a decade leaves the decade undecided
 	ten := big.NewInt(10)
-	want := big.NewInt(10)
-	k := 1
-	for _, c := range sw.Body.List {
-		cc := c.(*ast.CaseClause)
+	lo := big.NewInt(0)
+	pow := big.NewInt(10)
+	max64 := new(big.Int).SetUint64(^uint64(0))
+	for k := 1; k <= 20; k++ {
+		hi := new(big.Int).Sub(pow, big.NewInt(1))
+		if k == 20 {
+			hi = max64
+		}
 		key := fmt.Sprintf("LenUint rung %d", k)
-		if len(cc.List) != 1 || len(cc.Body) != 1 {
-			r.Unknown(key, cc.Pos(), "case is not a single comparison with a single return")
-			return
+		got, why := evalUintFunc(r, lu, lo, hi)
+		if why != "" {
+			r.Unknown(key, lu.Pos(), fmt.Sprintf("for i in [%s, %s] the result cannot be folded statically: %s", lo, hi, why))
+		} else {
+			r.Check(got == int64(k), key, lu.Pos(), fmt.Sprintf("[%s, %s] -> %d", lo, hi, k),
+				fmt.Sprintf("for i in [%s, %s] LenUint returns %d; these numbers have %d decimal digits", lo, hi, got, k))
 		}
-		be, ok := ast.Unparen(cc.List[0]).(*ast.BinaryExpr)
-		id, ok2 := func() (*ast.Ident, bool) {
-			if !ok {
-				return nil, false
-			}
-			i, o := ast.Unparen(be.X).(*ast.Ident)
-			return i, o
-		}()
-		ret, ok3 := cc.Body[0].(*ast.ReturnStmt)
-		if !ok || !ok2 || !ok3 || be.Op != token.LSS || pk.TypesInfo.Uses[id] != param || len(ret.Results) != 1 {
-			r.Unknown(key, cc.Pos(), "case is not `param < const: return const`")
-			return
-		}
-		bound := pk.TypesInfo.Types[be.Y].Value
-		rv := pk.TypesInfo.Types[ret.Results[0]].Value
-		if bound == nil || rv == nil {
-			r.Unknown(key, cc.Pos(), "non-constant bound or result")
-			return
-		}
-		bi, _ := new(big.Int).SetString(constant.ToInt(bound).ExactString(), 10)
-		rk, _ := constant.Int64Val(constant.ToInt(rv))
-		r.Check(bi != nil && bi.Cmp(want) == 0 && rk == int64(k), key, cc.Pos(), fmt.Sprintf("i < 10^%d -> %d", k, k),
-			fmt.Sprintf("rung %d of the digit-count ladder is `i < %s -> %d`; the number of decimal digits requires `i < 10^%d -> %d`", k, bound.ExactString(), rk, k, k))
-		want = new(big.Int).Mul(want, ten)
-		k++
+		lo = new(big.Int).Set(pow)
+		pow = new(big.Int).Mul(pow, ten)
 	}
-	// ladder must reach 10^19 (largest power of ten below 2^64)
-	r.Check(k == 20, "LenUint ladder height", sw.Pos(), "19 rungs", fmt.Sprintf("ladder has %d rungs; uint64 needs 19 (10^1..10^19) before the final return", k-1))
-	fv := pk.TypesInfo.Types[final.Results[0]].Value
-	fk, _ := constant.Int64Val(constant.ToInt(fv))
-	r.Check(fv != nil && fk == int64(k), "LenUint final return", final.Pos(), "", fmt.Sprintf("final return is %v, want %d", fv, k))
-
 	// LenInt: negative -> 1 + LenUint(uint64(-i)), MinInt64 -> 20, else LenUint(uint64(i))
 	fn := r.Prog.SSAFunc("strconv", "", "LenInt")
 	if fn == nil {
@@ -491,40 +445,21 @@ func runByteTables(r *core.Run) {
 			r.BrokenAnchor("parse." + tc.fn)
 			continue
 		}
-		var g *ssa.Global
-		good := false
-		if ret := singleReturn(fn); ret != nil && len(ret.Results) == 1 && len(fn.Params) == 1 {
-			if u, ok := ret.Results[0].(*ssa.UnOp); ok && u.Op == token.MUL {
-				if ia, ok := u.X.(*ssa.IndexAddr); ok {
-					g, _ = ia.X.(*ssa.Global)
-					idx := ia.Index
-					for {
-						if cv, ok := idx.(*ssa.Convert); ok {
-							idx = cv.X
-							continue
-						}
-						break
-					}
-					good = g != nil && idx == ssa.Value(fn.Params[0])
-				}
-			}
-		}
-		r.Check(good, tc.fn+" is a table look-up of its argument", fn.Pos(), "", tc.fn+" is no longer `return <[256]bool table>[c]`")
-		if g == nil {
+		// the predicate's truth table over all 256 byte values, whatever its form (table look-up, comparison chain, switch):
+		// evaluated statically from its body (constant folding over the finite domain of its byte parameter)
+		pi := computeBytePredicate(NewEngine(r, EngCfg{Rel: ""}), fn, 0)
+		if pi == nil || pi.table == nil {
+			r.Unknown(tc.fn+" truth table", fn.Pos(), tc.fn+" is not a pure predicate over its byte argument that can be evaluated for all 256 values (a table look-up or comparisons of the argument with constants)")
 			continue
 		}
-		t, err := boolTable(pk, g.Name())
-		if err != nil {
-			r.Unknown("table of "+tc.fn, token.NoPos, err.Error())
-			continue
-		}
+		t := pi.table
 		bad := -1
 		for c := 0; c < 256; c++ {
 			if t[c] != strings.ContainsRune(tc.set, rune(c)) || (c >= 128 && t[c]) {
 				bad = c
 			}
 		}
-		r.Check(bad < 0, "table of "+tc.fn, token.NoPos, fmt.Sprintf("equals %q on all 256 byte values", tc.set), fmt.Sprintf("%s[%#x] disagrees with the documented set %q", g.Name(), bad, tc.set))
+		r.Check(bad < 0, "table of "+tc.fn, token.NoPos, fmt.Sprintf("equals %q on all 256 byte values", tc.set), fmt.Sprintf("%s(%#x) disagrees with the documented set %q", tc.fn, bad, tc.set))
 	}
 	if r.Prop == "C17" {
 		return
